@@ -55,17 +55,21 @@ def payload(draw, max_sigs=12, allow_big=False, min_sigs=1):
 			'description': draw(OPT_TEXT),
 			'extra': draw(st.one_of(st.none(), st.just({}), st.dictionaries(TEXT, JSON_VALUE, max_size=4))),
 		}
+	# stored integer type: usually the k-mer spec's index dtype, sometimes a wider / signed one (legitimate: the type only has to hold the values)
+	width = 1 if k <= 4 else 2 if k <= 8 else 4 if k <= 16 else 8
+	wider = [f'u{w}' for w in (1, 2, 4, 8) if w > width] + [f'i{w}' for w in (2, 4, 8) if w > width]
+	dtype = draw(st.sampled_from([None, None, None] + wider)) if wider else None
 	comp = draw(st.sampled_from([None, 'gzip', 'lzf', None, 'gzip']))
 	copts = draw(st.integers(0, 9)) if comp == 'gzip' and draw(st.booleans()) else None
 	return {'k': k, 'prefix': prefix, 'sigs': sigs, 'container': container, 'idkind': idkind, 'ids': ids, 'meta': meta,
-	        'compression': comp, 'compression_opts': copts}
+	        'compression': comp, 'compression_opts': copts, 'dtype': dtype}
 
 
 def build_arrays(np, p):
 	from gambit.kmers import KmerSpec
 	spec = KmerSpec(p['k'], p['prefix'])
 	nk = 4 ** p['k']
-	dt = spec.index_dtype
+	dt = np.dtype(p['dtype']) if p.get('dtype') else spec.index_dtype
 	arrays = []
 	for ln, seed, where in p['sigs']:
 		rnd = random.Random(seed * 1000003 + ln)
@@ -89,7 +93,8 @@ def build(np, p):
 	"""Returns (object to dump, spec, arrays, expected ids (list or ndarray), expected meta dict)."""
 	from gambit.sigs.base import SignatureArray, SignatureList, AnnotatedSignatures, SignaturesMeta
 	spec, arrays = build_arrays(np, p)
-	base = SignatureArray(arrays, spec, dtype=spec.index_dtype) if p['container'].endswith('array') else SignatureList(arrays, spec, dtype=spec.index_dtype)
+	dt = np.dtype(p['dtype']) if p.get('dtype') else spec.index_dtype
+	base = SignatureArray(arrays, spec, dtype=dt) if p['container'].endswith('array') else SignatureList(arrays, spec, dtype=dt)
 	n = len(arrays)
 	default_meta = {'id': None, 'name': None, 'version': None, 'id_attr': None, 'description': None, 'extra': {}}
 	if not p['container'].startswith('annot'):
@@ -124,8 +129,9 @@ def compare_loaded(np, loaded, p, spec, arrays, exp_ids, exp_meta, Violation, ca
 	n = len(arrays)
 	if len(loaded) != n:
 		raise Violation('length', f'loaded {len(loaded)} signatures, written {n}', case)
-	if np.dtype(loaded.dtype) != spec.index_dtype:
-		raise Violation('dtype', f'loaded dtype {loaded.dtype}, written {spec.index_dtype}', case)
+	want_dt = np.dtype(p['dtype']) if p.get('dtype') else spec.index_dtype
+	if np.dtype(loaded.dtype) != want_dt:
+		raise Violation('dtype', f'loaded dtype {loaded.dtype}, written {want_dt}', case)
 	kind, ids = exp_ids
 	lids = loaded.ids
 	if len(lids) != n:
@@ -145,8 +151,8 @@ def compare_loaded(np, loaded, p, spec, arrays, exp_ids, exp_meta, Violation, ca
 			raise Violation('meta', f'loaded meta.{f} = {got!r}, written {exp_meta[f]!r}', case)
 	for i in range(n):
 		g = loaded[i]
-		if not isinstance(g, np.ndarray) or g.dtype != spec.index_dtype or not np.array_equal(g, arrays[i]):
+		if not isinstance(g, np.ndarray) or g.dtype != want_dt or not np.array_equal(g, arrays[i]):
 			raise Violation('signature', f'signature {i}: loaded {g[:6].tolist() if hasattr(g, "tolist") else g!r}... (n={len(g)}, dtype {getattr(g, "dtype", None)}), '
-			                f'written {arrays[i][:6].tolist()}... (n={len(arrays[i])}, dtype {spec.index_dtype})', case)
+			                f'written {arrays[i][:6].tolist()}... (n={len(arrays[i])}, dtype {want_dt})', case)
 		if n and not np.array_equal(loaded[i - n], arrays[i]):
 			raise Violation('signature', f'negative index {i - n} differs', case)
